@@ -371,6 +371,12 @@ class SparseArray:
                     f"doesn't match the broadcast shape {result.shape}"
                 )
 
+            if not isinstance(result, SparseArray):
+                raise ValueError("The result is a dense array and cannot be stored in a sparse `out`.")
+            if type(result) is not type(out):
+                # e.g. `gcxs += coo` computes a COO: store it in the format of `out`
+                kw = {"compressed_axes": out.compressed_axes} if out.format == "gcxs" and out.ndim >= 2 else {}
+                result = result.asformat(out.format, **kw)
             out._make_shallow_copy_of(result)
             return out
 
